@@ -90,7 +90,7 @@ def gen_cases(rng, tier):
                 if rng.random() < 0.3:
                     x1, y1 = x0 + d, y0
         cases.append(("grad_px", [kind, f2b(round(x0, 4)), f2b(round(y0, 4)), f2b(round(x1, 4)) if abs(x1 - x0) > 1e-3 or kind != 0 else f2b(x1), f2b(round(y1, 4)),
-                                  f2b(rad), rng.randrange(3), int(rng.random() < 0.5), rng.randrange(2), rng.randrange(3) + 3 * rng.choice([0, 0, 0, 1, 2, 3]), w, h] + rand_ts(rng) + rand_stops(rng)))
+                                  f2b(rad), rng.randrange(3), int(rng.random() < 0.5), rng.randrange(2) + 2 * rng.choice([0, 0, 0, 1, 2, 3]), rng.randrange(3) + 3 * rng.choice([0, 0, 0, 1, 2, 3]), w, h] + rand_ts(rng) + rand_stops(rng)))
     return cases
 
 
@@ -105,6 +105,8 @@ def oracle(suite, args, out):
             if pos[0] != 0.0 or pos[-1] != 1.0 or any(pos[k] > pos[k + 1] for k in range(m - 1)):
                 return "sanitised stop positions are not bracketed by 0 and 1 and monotonic: %r" % pos
         return None
+    if len(o) >= 11 and o[9] == 0 and o[10] > 0:
+        return "%d pixels are not valid premultiplied colours (a colour channel above alpha)" % o[10]
     if len(o) >= 10 and o[9] == 0:
         if o[8] > 0:
             return "%d pixels where the conical gradient is undefined were changed (first (%d,%d))" % (o[8], o[3], o[4])
